@@ -550,3 +550,31 @@ Example c19_merge_sort_is_sort_ex :
   msort_keys [str "part-10"; str "part-2"; str "part-1"; str "b"; str "a/"; str "a"; str "part-10/x"] =
   [str "a"; str "a/"; str "b"; str "part-1"; str "part-10"; str "part-10/x"; str "part-2"].
 Proof. vm_compute. reflexivity. Qed.
+
+(* the suffix test of the codec choice IS a suffix test, and the if-chain of the writer picks the
+   first class, in the order gzip, zstd, bzip2, xz, one of whose extensions ends the lower-cased key *)
+Theorem c19_ends_with_is_suffix :
+  forall s suf : list N, ends_with s suf = true <-> exists pre, s = pre ++ suf.
+Proof. exact ends_with_spec. Qed.
+
+Theorem c19_writer_codec_spec :
+  forall key : list N,
+    let lk := map lower key in
+    let has := fun exts => exists e pre, In e exts /\ lk = pre ++ e in
+    match writer_codec key with
+    | Some Gzip => has [ext_gz; ext_gzip]
+    | Some Zstd => ~ has [ext_gz; ext_gzip] /\ has [ext_zst; ext_zstd]
+    | Some Bzip2 => ~ has [ext_gz; ext_gzip] /\ ~ has [ext_zst; ext_zstd] /\ has [ext_bz2; ext_bzip2]
+    | Some Xz => ~ has [ext_gz; ext_gzip] /\ ~ has [ext_zst; ext_zstd] /\ ~ has [ext_bz2; ext_bzip2] /\
+                 has [ext_xz]
+    | None => ~ has [ext_gz; ext_gzip] /\ ~ has [ext_zst; ext_zstd] /\ ~ has [ext_bz2; ext_bzip2] /\
+              ~ has [ext_xz]
+    end.
+Proof. exact writer_codec_spec. Qed.
+
+Example c19_writer_codec_spec_ex :
+  ends_with (str "dir/x.jsonl.gz") ext_gz = true /\ str "dir/x.jsonl.gz" = str "dir/x.jsonl" ++ ext_gz /\
+  ends_with (str "x.gz.bak") ext_gz = false /\
+  writer_codec (str "a.gz.XZ") = Some Xz /\ writer_codec (str "a.xz.Gz") = Some Gzip /\
+  writer_codec (str "x.gz.bak") = None /\ writer_codec (str "K.BZIP2") = Some Bzip2.
+Proof. vsplit. Qed.
